@@ -655,22 +655,7 @@ func runC10(w *World, r *Report) {
 			switch {
 			case name == "GetLine":
 				// allowed only as an operand of an equality between two GetLine() results (the same-line predicate)
-				okUse := true
-				for _, ref := range *call.Referrers() {
-					bo, isB := ref.(*ssa.BinOp)
-					if !isB || (bo.Op != token.EQL && bo.Op != token.NEQ) {
-						okUse = false
-						continue
-					}
-					other := bo.X
-					if other == ssa.Value(call) {
-						other = bo.Y
-					}
-					oc, isC := other.(*ssa.Call)
-					if !isC || !(oc.Call.IsInvoke() && oc.Call.Method.Name() == "GetLine") {
-						okUse = false
-					}
-				}
+				okUse := lineOnlyCompared(call, 0)
 				if !okUse {
 					bad = append(bad, "GetLine() used other than in the same-line comparison at "+w.instrPos(ins))
 				}
@@ -798,4 +783,160 @@ func runC10(w *World, r *Report) {
 		r.fail(ruleOnce, "hidden-channel readers found", "", fmt.Sprintf("expected 2 functions querying the hidden channel, found %d", nq))
 	}
 	r.assume("ANTLR's lexer maps equal character sequences to equal token sequences; hidden-channel queries return the comments adjacent to a token")
+}
+
+
+// isLineValue: v is a GetLine() result, possibly kept in a local variable or captured by a closure.
+func isLineValue(v ssa.Value, depth int) bool {
+	if depth > 6 {
+		return false
+	}
+	switch x := stripIdentity(v).(type) {
+	case *ssa.Call:
+		return x.Call.IsInvoke() && x.Call.Method.Name() == "GetLine"
+	case *ssa.Phi:
+		for _, e := range x.Edges {
+			if !isLineValue(e, depth+1) {
+				return false
+			}
+		}
+		return true
+	case *ssa.FreeVar:
+		fn := x.Parent()
+		idx := -1
+		for i, fv := range fn.FreeVars {
+			if fv == x {
+				idx = i
+			}
+		}
+		if idx < 0 || fn.Parent() == nil {
+			return false
+		}
+		found, all := false, true
+		forEachInstr(fn.Parent(), func(_ *ssa.BasicBlock, ins ssa.Instruction) {
+			if mc, ok := ins.(*ssa.MakeClosure); ok && mc.Fn == ssa.Value(fn) && idx < len(mc.Bindings) {
+				found = true
+				if !isLineValue(mc.Bindings[idx], depth+1) {
+					all = false
+				}
+			}
+		})
+		return found && all
+	case *ssa.UnOp:
+		if x.Op != token.MUL {
+			return false
+		}
+		switch a := x.X.(type) {
+		case *ssa.Alloc:
+			n := 0
+			for _, ref := range *a.Referrers() {
+				if st, ok := ref.(*ssa.Store); ok && st.Addr == ssa.Value(a) {
+					n++
+					if !isLineValue(st.Val, depth+1) {
+						return false
+					}
+				}
+			}
+			return n > 0
+		case *ssa.FreeVar:
+			// a captured variable: the enclosing function's stores decide
+			return isLineValue(a, depth+1)
+		}
+	case *ssa.Alloc:
+		n := 0
+		for _, ref := range *x.Referrers() {
+			if st, ok := ref.(*ssa.Store); ok && st.Addr == ssa.Value(x) {
+				n++
+				if !isLineValue(st.Val, depth+1) {
+					return false
+				}
+			}
+		}
+		return n > 0
+	}
+	return false
+}
+
+// lineOnlyCompared: every use of the GetLine() result v is an (in)equality with another GetLine() result - the same-line predicate -
+// directly, through a local variable, or inside a closure that captured it.
+func lineOnlyCompared(v ssa.Value, depth int) bool {
+	if depth > 6 || v.Referrers() == nil {
+		return depth <= 6
+	}
+	for _, ref := range *v.Referrers() {
+		switch x := ref.(type) {
+		case *ssa.DebugRef:
+		case *ssa.BinOp:
+			if x.Op != token.EQL && x.Op != token.NEQ {
+				return false
+			}
+			other := x.X
+			if other == v {
+				other = x.Y
+			}
+			if !isLineValue(other, 0) {
+				return false
+			}
+		case *ssa.Phi:
+			if !lineOnlyCompared(x, depth+1) {
+				return false
+			}
+		case *ssa.Store:
+			a, ok := x.Addr.(*ssa.Alloc)
+			if !ok || x.Val != v {
+				return false
+			}
+			for _, r2 := range *a.Referrers() {
+				switch y := r2.(type) {
+				case *ssa.Store, *ssa.DebugRef:
+				case *ssa.UnOp:
+					if !lineOnlyCompared(y, depth+1) {
+						return false
+					}
+				case *ssa.MakeClosure:
+					if !closureLineOnly(y, a, depth) {
+						return false
+					}
+				default:
+					return false
+				}
+			}
+		case *ssa.MakeClosure:
+			if !closureLineOnly(x, v, depth) {
+				return false
+			}
+		default:
+			return false
+		}
+	}
+	return true
+}
+
+func closureLineOnly(mc *ssa.MakeClosure, bound ssa.Value, depth int) bool {
+	fn, ok := mc.Fn.(*ssa.Function)
+	if !ok {
+		return false
+	}
+	for i, b := range mc.Bindings {
+		if b != bound || i >= len(fn.FreeVars) {
+			continue
+		}
+		fv := fn.FreeVars[i]
+		if _, isPtr := bound.(*ssa.Alloc); isPtr {
+			for _, r2 := range *fv.Referrers() {
+				switch y := r2.(type) {
+				case *ssa.DebugRef:
+				case *ssa.UnOp:
+					if !lineOnlyCompared(y, depth+1) {
+						return false
+					}
+				default:
+					return false
+				}
+			}
+		} else if !lineOnlyCompared(fv, depth+1) {
+			return false
+		}
+	}
+	return true
 }
